@@ -13,7 +13,8 @@ RULE = ("round trip: every callsign of length 1..3 over the 39-character alphabe
         "random callsigns of length 5..9; decode: 40^k-1, 40^k, 40^k+1 for k=0..9, 0, 2^48-2, 2^48-1, random addresses stratified by "
         "number of base-40 digits, by zero digits (printed 'x') and in the reserved range >= 40^9; encode with strict on/off on valid, "
         "lower-case, space, high-bit and ten-character inputs and every single byte value; call site: the LSF built by m17-mod's "
-        "send_lsf for every (source length 1..9) x (destination length 0..9) pair carries the specification's addresses.  "
+        "send_lsf, and the members M17Modulator's constructor / source() / dest() set, for every (source length 1..9) x (destination "
+        "length 0..9) pair carry the specification's addresses.  "
         "A case is non-trivial unless it is the empty callsign / address 0; distinct by content.")
 ASSUMPTIONS = ["model = hand-written ImplCallsign.v; tie = differential run on the cases of this run + regenerated constants "
                "(table, ranges, radix, sizes, broadcast constants, loop bound)",
@@ -186,6 +187,33 @@ def site_probe(ctx):
                                                      "harness_command": cmds[i]})
             return
     ctx.coverage["m17_mod_send_lsf_length_pairs"] = len(pairs)
+    # M17Modulator: constructor and source()/dest() setters (private wrapper around the codec)
+    exe2 = ctx.build_cpp("c17_sites_harness", "c17_sites.cpp", libs=["-lcodec2"])
+    if not exe2:
+        return
+    cmds2 = []
+    for k, (sr, ds) in enumerate(pairs):
+        cmds2.append(f"{'ctor' if k % 2 == 0 else 'set'} {hx(sr)} {hx(ds) if ds else '-'}")
+    rc, out = ctx.run_exe(exe2, input_text="\n".join(cmds2) + "\n", timeout=600)
+    got = out.strip("\n").split("\n")
+    if rc != 0 or len(got) != len(cmds2):
+        ctx.tie_broken("c17-site-harness", f"c17_sites harness exited {rc} / printed {len(got)} lines for {len(cmds2)} commands: {out[-200:]}")
+        return
+    for i, ((sr, ds), line) in enumerate(zip(pairs, got)):
+        ctx.case(("site-modulator", sr, ds))
+        m = re.search(r"src=([0-9a-f]{12}) dst=([0-9a-f]{12})", line)
+        if not m:
+            ctx.tie_broken("c17-site-harness", f"unparsable: {line[:100]}")
+            return
+        want_src = ml[2 * i].split()[0]
+        want_dst = ml[2 * i + 1].split()[0] if ds else "ffffffffffff"
+        if m.group(1) != want_src or m.group(2) != want_dst:
+            ctx.violation("callsign-site-m17modulator", "M17Modulator (constructor / source() / dest()) does not hold the addresses of the callsigns "
+                          "it was given", {"how": cmds2[i].split()[0], "source": sr, "destination": ds or "(none: broadcast)",
+                                           "src_member": m.group(1), "src_expected": want_src, "dst_member": m.group(2), "dst_expected": want_dst,
+                                           "harness_command": cmds2[i]})
+            return
+    ctx.coverage["m17modulator_site_length_pairs"] = len(pairs)
 
 
 def run(ctx):
